@@ -23,6 +23,20 @@ STRENGTHENED = {
     "C01-6": "a short write() is an I/O fault: outside what the C01 check explores, caught by the C12 fault schedules",
     "C16-6": "missed at first by C16 (caught by C01 only as a model/code disagreement); C16 gained a tool part: the archive of `zck -s` must be byte-identical for every partition of the input into read() results",
     "C05-6": "missed at first; sessions of several transfers (broken transfer, zck_dl_reset, retry) were added to model, harness and generator",
+    "C07-5": "missed at first; pins one byte off at EVERY position are now offered, also for files whose header digest contains a 0x00 byte in front of other bytes",
+    "C07-6": "missed at first; the pin model gained zck_clear_error (Pins.v ClearErr), theorems C07_pin_sticky / C07_pin_survives, and sequences 'accepted pin, refused calls, clear error' on the pinned and on another file with a sequence oracle",
+    "C06-4": "missed at first; every compressed integer of the header is now also offered in a longer non-minimal encoding (alone and with the enclosing size fields adjusted), plain and pinned",
+    "C06-5": "missed at first; the sweep over the lead is now also run with the pin options set AFTER zck_read_lead",
+    "C08-4": "first caught only as a model/code disagreement; the frame oracle now bounds the target's length, and full targets with one hole whose source copy is damaged were added (uncompressed and zstd)",
+    "C08-5": "missed at first; a pairing call between two sources (flags of the source set from the indexes alone) in front of the copy was added (op M)",
+    "C08-6": "first caught only as a model/code disagreement; the target now wants the source's last chunk in front of its first one, so that a source cut inside its last chunk leaves a wanted neighbour",
+    "C03-4": "missed at first; hand-built zstd files (raw-block frames) whose dictionary chunk carries the zstd dictionary magic with unusable tables were added",
+    "C03-5": "missed at first; call sequences with a single partial zck_read in front of a chunk request were added, and valid files now run every sequence in the quick tier",
+    "C03-6": "missed at first; header opens with a pin of ANOTHER hash type whose digest bytes agree with the file's as far as they go were added (sanitized build)",
+    "C11-4": "missed at first by C11 and C09; both gained new-version files whose last chunk spans several 32 KiB scan blocks, cut / killed deep inside it, also under the uncompressed-source flag",
+    "C11-6": "missed at first by C11 (caught by C09); C11 gained a chunk of exactly 32768 stored bytes",
+    "C19-5": "caught by the proof obligation on the inventory of writable statics (regenerated from the object files); the thread runs did not produce a differing result",
+    "C19-6": "caught by the proof obligation on the inventory of writable statics",
     "C01-3": "caught as HANG; the per-case watchdog was shortened so that the check stays fast",
 }
 
